@@ -23,7 +23,7 @@ RULE = (
     "which is asserted); if the texts differ both rules are run on the base listing and two perturbations and only a behavioural difference (or one side raising) is a "
     "violation. Non-trivial: a parameterised macro used >= 2 times with different actuals, or >= 2 macro kinds combined; distinct by canonical hash."
 )
-ASSUMPTIONS = ["only the supported use forms are generated (string macro as key with an operand list, formals in key position, item macro with sibling times are not)", "macro names pairwise not substrings of one another"]
+ASSUMPTIONS = ["only the supported use forms are generated: a formal parameter in the key position of an item (the name of an item that has an operand list) is not, nor is a rule-file macro whose body refers to a macro of an extra file (the combined list is files-first, so the quantifier's listing order cannot be met for that split); string macros in keys (F38, F38b) and uses with times (F32) are generated", "macro names pairwise not substrings of one another"]
 FLOORS = {"kind=nested-pass-through": 0.02, "kind=independent-uses": 0.02, "has-deref": 0.08, "kind=item": 0.1, "kind=operand": 0.1, "kind=substring": 0.1, "kind=times-body": 0.012, "kind=key-substring": 0.04, "kind=key-whole": 0.04, "kind=chain": 0.01, "kind=param": 0.15, "extra-files": 0.3, "extra-files-not-in-alphabetical-order": 0.04, "multi-use": 0.3}
 
 
